@@ -10,7 +10,7 @@ import time
 import typing
 from types import SimpleNamespace
 
-from .. import e2e
+from .. import e2e, realcall
 from ..common import Hang, hx, unhx, watchdog
 from ..runner import Check
 
@@ -143,7 +143,71 @@ def random_graph(rng, max_nodes=7):
 
 
 # ---------------------------------------------------------------------------------------------
-# stubs for the real functions
+# calls into real internals. Every direct call of a private / name-mangled function of /repo goes through
+# vlib/realcall: when the callee is gone or no longer binds the arguments the model was written against, that is
+# a broken CORRESPONDENCE of the campaign that is running (DESIGN.md 2.4: failing-input search), not a crash.
+BROKEN = ("broken-call",)  # what a real_* wrapper returns when its callee is gone / has another shape
+_at: dict = {"ck": None, "camp": None}
+
+
+def at(ck: Check, camp) -> None:
+    """the campaign on whose account the following real calls are made"""
+    _at["ck"], _at["camp"] = ck, camp
+
+
+def _ctx():
+    ck, camp = _at["ck"], _at["camp"]
+    if camp is None or camp not in ck.campaigns:
+        camp = ck.campaigns[-1] if ck.campaigns else ck.campaign("real calls outside a campaign")
+    return ck, camp
+
+
+_shape_cache: dict = {}
+
+
+def _shape(fn, key, *args, **kwargs):
+    """realcall.signature_accepts, decided once per callee and argument shape (it is asked a million times)"""
+    k = (id(fn), key)
+    if k not in _shape_cache:
+        _shape_cache[k] = "callee is gone" if fn is None else realcall.signature_accepts(fn, *args, **kwargs)
+    return _shape_cache[k]
+
+
+class _CampaignOf:
+    """stands for 'the campaign that `fn` opened' in realcall.guard, which wants it before it exists"""
+
+    def __init__(self, ck: Check, first: int, fallback: str):
+        self._ck, self._first, self._fallback = ck, first, fallback
+
+    def _camp(self):
+        if len(self._ck.campaigns) <= self._first:
+            self._ck.campaign(self._fallback)
+        return self._ck.campaigns[-1]
+
+    @property
+    def name(self):
+        return self._camp().name
+
+    @property
+    def disagreements(self):
+        return self._camp().disagreements
+
+    @disagreements.setter
+    def disagreements(self, v):
+        self._camp().disagreements = v
+
+
+def guarded(ck: Check, fn, *args) -> None:
+    """run one campaign; a shape error of a real internal (attribute gone, other signature, module moved) that
+    surfaces in harness code ends THIS campaign as a broken correspondence"""
+    proxy = _CampaignOf(ck, len(ck.campaigns), f"{fn.__name__}: could not start")
+    try:
+        with realcall.guard(ck, proxy, f"harness of {fn.__name__}"):
+            fn(ck, *args)
+    except ImportError as e:
+        ck.disagree(proxy._camp(), {"real_call": f"imports of {fn.__name__}"}, "the modelled classes/functions are importable", f"ImportError: {e}")
+
+
 _real_cache: dict = {}
 
 
@@ -227,12 +291,18 @@ def stub_models(g):
 def run_real_sort(models, rc=None, extra=None):
     """canonical observable result of the real sort_data_models (`extra`: frames left on the stack)"""
     R = _real()
+    ck, camp = _ctx()
+    fn = realcall.resolve(ck, camp, R.pbase, "sort_data_models", "parser.base.sort_data_models")
+    kw = {} if rc is None else {"recursion_count": rc}
+    if _shape(fn, rc is None, models, **kw) is not None:
+        realcall.call(ck, camp, "parser.base.sort_data_models", fn, models, **kw)  # does not bind: records it (once per campaign)
+        return BROKEN
     try:
         with watchdog(30 if extra is not None else 10), stack_room(extra):
             if rc is None:
-                un, so, upd = R.pbase.sort_data_models(models)
+                un, so, upd = fn(models)
             else:
-                un, so, upd = R.pbase.sort_data_models(models, recursion_count=rc)
+                un, so, upd = fn(models, recursion_count=rc)
     except Hang:
         return ("hang",)
     except RecursionError:
@@ -268,7 +338,8 @@ def parse_sort_reply(rep: str):
 
 
 def default_rc() -> int:
-    return _real().pbase.MAX_RECURSION_COUNT
+    v = realcall.resolve(*_ctx(), _real().pbase, "MAX_RECURSION_COUNT", "parser.base.MAX_RECURSION_COUNT")
+    return sys.getrecursionlimit() if v is None else v
 
 
 # ---------------------------------------------------------------------------------------------
@@ -310,6 +381,7 @@ def closed_refs(g) -> bool:
 
 def campaign_sort(ck: Check, n_random: int, exhaustive_nodes: int) -> None:
     camp = ck.campaign("Model.Sort.sortDataModels vs sort_data_models (real DataModel objects / stand-ins)")
+    at(ck, camp)
     t0 = time.time()
     rng = ck.rng.fork("sort")
     cases = []  # (graph, rc or None, kind)
@@ -343,6 +415,8 @@ def campaign_sort(ck: Check, n_random: int, exhaustive_nodes: int) -> None:
                 if {id_of(p) for p in m.reference_classes} != set(refs_of(n)):
                     ck.infra_errors.append(f"stub construction: reference_classes {m.reference_classes} for node {n}")
         impl = run_real_sort(ms, rc)
+        if impl is BROKEN:
+            return
         impl_c = tuple(impl)
         model_c = tuple(model)
         camp.hit(f"n={len(g)}")
@@ -445,6 +519,8 @@ def stack_case(ck: Check, camp, g, rc, extra, kind, model_replies=None) -> None:
     camp.evaluations += 1
     ms = real_models(g) if kind == "real" else stub_models(g)
     impl = run_real_sort(ms, rc, extra)
+    if impl is BROKEN:
+        return
     camp.hit(f"n={len(g) // 10 * 10}..")
     camp.hit("objects:" + kind)
     camp.hit("result:" + (impl[0] if impl[0] != "err" else "err-" + str(impl[1])))
@@ -474,6 +550,7 @@ STACK_WINDOW = (-4, 4)  # candidates for d relative to the frames left (the call
 
 def campaign_stack(ck: Check, n_cases: int, at_default_limit: bool) -> None:
     camp = ck.campaign("Model.Sort.sortDataModelsS (escape hatch) vs sort_data_models on a nearly exhausted interpreter stack: deep chains / DAGs / trees")
+    at(ck, camp)
     t0 = time.time()
     rng = ck.rng.fork("stack")
     # the budget the code starts with is the interpreter's limit at import time; the theorems need nothing else about it
@@ -535,6 +612,7 @@ CORPUS = [
 # bubble convergence: all inheritance graphs on <= N nodes
 def campaign_bubble(ck: Check, max_nodes: int) -> None:
     camp = ck.campaign("bubble_converges, exhaustively: every inheritance digraph on <= %d nodes (model passes; real error kind)" % max_nodes)
+    at(ck, camp)
     t0 = time.time()
     maxpass: dict[int, int] = {}
 
@@ -577,6 +655,8 @@ def campaign_bubble(ck: Check, max_nodes: int) -> None:
             # the real code: the new `else: raise` is taken exactly when the model's bubble runs out
             impl = run_real_sort(stub_models(g))
             want = ("err", "unresolved") if converged else ("err", "circularBases")
+            if impl is BROKEN:
+                continue
             if impl != want:
                 if impl[0] == "hang":
                     ck.fail({"oracle": "sorter_result", "mechanism": "hang", "base_cycle": cyc, "self_base": False}, {"graph": g, "target": "sort_data_models"}, "sort_data_models does not terminate")
@@ -612,19 +692,30 @@ NAMES = ["A", "B", "C", "D", "E", "Ab", "a", "Z", "B1"]
 
 
 def run_real_sort_models(imp, ms, fuel):
-    """class names in the order the real pass leaves them, or "none" when it is still sweeping after `fuel` sweeps"""
-    fn = _real().pbase.Parser._Parser__sort_models
+    """class names in the order the real pass leaves them, or "none" when it is still sweeping after `fuel` sweeps;
+    BROKEN when the pass is gone, takes other arguments, or reads of a model more than the stand-ins expose
+    (class_name, base_classes[i].reference / .type_hint) — the shape the model was transliterated from"""
+    ck, camp = _ctx()
+    fn = realcall.resolve(ck, camp, _real().pbase.Parser, "_Parser__sort_models", "Parser.__sort_models")
     stubs = CountingList([Stub("", frozenset(), [_Base(None, "BaseModel")] + [_Base(_Ref(""), b) for b in bs], nm) for nm, bs in ms], fuel)
+    self_, imports = SimpleNamespace(keep_model_order=True), {"m": set(imp)}
+    if _shape(fn, "sort_models", self_, stubs, imports) is not None:
+        realcall.call(ck, camp, "Parser.__sort_models(self, models, imports)", fn, self_, stubs, imports, _case={"imported": imp, "models": ms})
+        return BROKEN
+    done = False
     try:
-        with watchdog(10):
-            fn(SimpleNamespace(keep_model_order=True), stubs, {"m": set(imp)})
-        return [s.class_name for s in list.__iter__(stubs)]
+        with watchdog(10), realcall.guard(ck, camp, "Parser.__sort_models on stand-in models (reads class_name, base_classes[i].reference/.type_hint)",
+                                          {"imported": imp, "models": ms}):
+            fn(self_, stubs, imports)
+            done = True
     except Hang:
         return "none"
+    return [s.class_name for s in list.__iter__(stubs)] if done else BROKEN
 
 
 def campaign_sort_models(ck: Check, n_cases: int) -> None:
     camp = ck.campaign("Model.Sort.sortModels vs Parser._Parser__sort_models (keep_model_order)")
+    at(ck, camp)
     t0 = time.time()
     rng = ck.rng.fork("sortmodels")
     cases = []
@@ -653,6 +744,8 @@ def campaign_sort_models(ck: Check, n_cases: int) -> None:
         camp.evaluations += 1
         model = "none" if rep == "none" else [unhx(t) for t in rep[4:-1].split()] if rep.startswith("ok (") else rep
         impl = run_real_sort_models(imp, ms, fuel)
+        if impl is BROKEN:
+            continue
         camp.hit(f"n={len(ms)}")
         camp.hit("loops-forever(fuel)" if impl == "none" else "terminates")
         if len(ms) > 1:
@@ -954,6 +1047,7 @@ def _use_module(ck, camp, g, kind, opts, inp, cls, res, names, pos, by_id, foote
 
 def campaign_e2e(ck: Check, n_graphs: int) -> None:
     camp = ck.campaign("e2e: graph -> definitions (allOf/$ref) -> real generate() -> class order, import, forward refs usable")
+    at(ck, camp)
     t0 = time.time()
     rng = ck.rng.fork("e2e")
     for g in E2E_CORPUS:
@@ -1060,7 +1154,8 @@ def campaign_reuse(ck: Check, n_cases: int) -> None:
     camp = ck.campaign("Model.Sort.reusePass / emitFooter vs Parser._Parser__reuse_model on real DataModel objects (paths, bases, update-action list)")
     t0 = time.time()
     rng = ck.rng.fork("reuse")
-    fn = _real().pbase.Parser._Parser__reuse_model
+    at(ck, camp)
+    fn = realcall.resolve(ck, camp, _real().pbase.Parser, "_Parser__reuse_model", "Parser.__reuse_model")
     cases = [g for g, _ in POST_CORPUS if not any(n.get("root") for n in g)]
     for _ in range(n_cases):
         cases.append(clean(random_graph(rng, 5)) if rng.chance(1, 6) else post_graph(rng, False))
@@ -1077,9 +1172,15 @@ def campaign_reuse(ck: Check, n_cases: int) -> None:
         ms = real_models_marked(g)
         upd = [path_of(i) for i in flagged]
         try:
-            fn(SimpleNamespace(reuse_model=True), ms, upd)
+            ok, _ = realcall.call(ck, camp, "Parser.__reuse_model(self, models, require_update_action_models)", fn,
+                                  SimpleNamespace(reuse_model=True), ms, upd, _case={"graph": g, "flagged": flagged})
         except Exception as ex:  # noqa: BLE001
-            ck.disagree(camp, {"graph": g, "flagged": flagged}, rep, f"raised {type(ex).__name__}: {ex}")
+            if len(ck.disagreements) < 60:
+                ck.disagree(camp, {"graph": g, "flagged": flagged}, rep, f"raised {type(ex).__name__}: {ex}")
+            else:
+                camp.disagreements += 1
+            continue
+        if not ok:
             continue
 
         def show(path):
@@ -1105,6 +1206,7 @@ def campaign_reuse(ck: Check, n_cases: int) -> None:
 def campaign_e2e_post(ck: Check, n_graphs: int) -> None:
     camp = ck.campaign("e2e with post-passes (--reuse-model, --collapse-root-models, --keep-model-order): identical definitions inside cycles, "
                        "root models; classes, import, every model usable; footer vs Model.Sort.emitFooter")
+    at(ck, camp)
     t0 = time.time()
     rng = ck.rng.fork("e2e-post")
     obs = []
@@ -1135,6 +1237,7 @@ POST_CORPUS = [
 
 def campaign_e2e_deep(ck: Check, n_cases: int) -> None:
     camp = ck.campaign("e2e on a nearly exhausted interpreter stack: deep chains / DAGs / trees -> generate() ends with every class, module usable")
+    at(ck, camp)
     t0 = time.time()
     rng = ck.rng.fork("e2e-deep")
     for k in range(n_cases):
@@ -1149,6 +1252,7 @@ def campaign_e2e_deep(ck: Check, n_cases: int) -> None:
 def campaign_e2e_keep_order(ck: Check, n_cases: int) -> None:
     """--keep-model-order: inheritance forests whose class names sort in every relation to the inheritance direction"""
     camp = ck.campaign("e2e --keep-model-order: inheritance chains/forests x every assignment of names (reverse-alphabetical chains included)")
+    at(ck, camp)
     t0 = time.time()
     rng = ck.rng.fork("e2e-keep")
     cases = []
@@ -1177,6 +1281,7 @@ def campaign_e2e_keep_order(ck: Check, n_cases: int) -> None:
 def campaign_e2e_modular(ck: Check, n_graphs: int) -> None:
     """keep_model_order + modules: the per-module swap loop of __sort_models must terminate"""
     camp = ck.campaign("e2e modular + keep_model_order: terminates, every definition is one class in its module, bases first inside a module")
+    at(ck, camp)
     t0 = time.time()
     rng = ck.rng.fork("e2e-mod")
     todo = [([dict(n) for n in g], dict(p)) for g, p in MODULAR_CORPUS]
@@ -1247,6 +1352,7 @@ MODULAR_CORPUS = [
 def search_e2e(ck: Check) -> None:
     """a theorem or the correspondence broke: look for an input on which the property's oracle fails"""
     camp = ck.campaign("search: disagreeing graphs and all small graphs end-to-end")
+    at(ck, camp)
     seen = set()
     # disagreements of the alphabetical pass, embedded into a complete document (class names that sort alike)
     for d in ck.disagreements[:200]:
@@ -1298,7 +1404,8 @@ def search_e2e(ck: Check) -> None:
             for (i, j), kd in zip(pairs, kinds):
                 if kd:
                     g[i]["members" if kd == 1 else "bases"].append(j)
-            why = oracle_sort_result(g, run_real_sort(stub_models(g)))
+            res = run_real_sort(stub_models(g))
+            why = None if res is BROKEN else oracle_sort_result(g, res)
             if why:
                 ck.fail({"oracle": "sorter_result", "mechanism": mechanism_of(why), "self_base": False, "base_cycle": base_cycle(g)},
                         {"graph": g, "recursion_count": None, "objects": "stub", "target": "sort_data_models"}, why)
@@ -1343,16 +1450,16 @@ def run(ck: Check) -> None:
         "__reuse_model is modelled for object models (Enum and type-alias branches: end-to-end oracle only); equality of renderings is represented by a key computed from the written definition (mark, members, bases)",
         "the end-to-end oracle treats a base list that Python itself rejects (MRO conflict, duplicate base) as outside C11: no order of classes could repair it",
     ]
-    campaign_sort(ck, 500 if quick else 5000, 3 if quick else 4)
-    campaign_stack(ck, 120 if quick else 600, not quick)
-    campaign_bubble(ck, 4 if quick else 5)
-    campaign_e2e_keep_order(ck, 60 if quick else 500)  # before the function-level campaign: a failing DOCUMENT becomes the replay
-    campaign_sort_models(ck, 600 if quick else 6000)
-    campaign_e2e(ck, 240 if quick else 2000)
-    campaign_reuse(ck, 200 if quick else 2000)
-    campaign_e2e_post(ck, 120 if quick else 900)
-    campaign_e2e_deep(ck, 10 if quick else 60)
-    campaign_e2e_modular(ck, 80 if quick else 400)
+    guarded(ck, campaign_sort, 500 if quick else 5000, 3 if quick else 4)
+    guarded(ck, campaign_stack, 120 if quick else 600, not quick)
+    guarded(ck, campaign_bubble, 4 if quick else 5)
+    guarded(ck, campaign_e2e_keep_order, 60 if quick else 500)  # before the function-level campaign: a failing DOCUMENT becomes the replay
+    guarded(ck, campaign_sort_models, 600 if quick else 6000)
+    guarded(ck, campaign_e2e, 240 if quick else 2000)
+    guarded(ck, campaign_reuse, 200 if quick else 2000)
+    guarded(ck, campaign_e2e_post, 120 if quick else 900)
+    guarded(ck, campaign_e2e_deep, 10 if quick else 60)
+    guarded(ck, campaign_e2e_modular, 80 if quick else 400)
     ck.search_hooks.append(search_e2e)
     known_findings(ck)
 
@@ -1361,14 +1468,15 @@ def replay(ck: Check, path: str) -> int:
     data = json.loads(open(path).read())
     inp = data.get("input") or {}
     camp = ck.campaign("replay")
+    at(ck, camp)
     ck.findings = []
     target = inp.get("target")
     if target == "sort_data_models":
         g = inp["graph"]
         ms = real_models(g) if inp.get("objects") == "real" else stub_models(g)
         res = run_real_sort(ms, inp.get("recursion_count"), inp.get("stack_extra"))
-        why = oracle_sort_result(g, res)
         print("sort_data_models ->", res)
+        why = None if res is BROKEN else oracle_sort_result(g, res)
         if res == ("err", "circularBases") and not base_cycle(g):
             why = "acyclic inheritance is reported as circular base classes"
         if why:
@@ -1381,9 +1489,11 @@ def replay(ck: Check, path: str) -> int:
         ms = [(nm, list(bs)) for nm, bs in inp["models"]]
         impl = run_real_sort_models(inp["imported"], ms, 60)
         print("__sort_models ->", impl)
+        if impl is BROKEN:
+            print("Parser.__sort_models no longer has the modelled shape: nothing to judge at function level")
         if impl == "none" and not name_cycle(ms):
             ck.fail({"oracle": "sort_models", "mechanism": "hang"}, inp, "__sort_models keeps swapping although inheritance among the classes of the module is acyclic")
-        why = sort_models_order_violation(inp["imported"], ms, impl)
+        why = None if impl is BROKEN else sort_models_order_violation(inp["imported"], ms, impl)
         if why:
             ck.fail({"oracle": "sort_models", "mechanism": "base_after_derived"}, inp, why)
     for f in ck.failures:
